@@ -386,6 +386,14 @@ func OS_Link(oldname, newname string) error {
 		return err
 	}
 	c.Path2 = s.Rel(oldname)
+	// The system's temporary directory is another file system than the
+	// simulated machine's directories (as /tmp often is): a hard link from
+	// there into the world fails as it does across devices.
+	if s.Root != "" && !strings.HasPrefix(oldname, s.Root) && strings.HasPrefix(newname, s.Root) {
+		c.Err = &os.LinkError{Op: "link", Old: oldname, New: newname, Err: syscall.EXDEV}
+		s.post(c)
+		return c.Err
+	}
 	err = os.Link(oldname, newname)
 	if err == nil {
 		if m, ok := s.mtime[oldname]; ok {
